@@ -51,6 +51,14 @@ HOURLY_PROFILES = {
     "reversed-solar": ({"train_features": ["ghi", "temperature"]}, True),
     "solar-inserted": ("HourlySolarSettings(train_features=['temperature'])", True),     # the validator inserts ghi at position 0
     "supplemental": ({"train_features": ["feature_col", "ghi"], "scaling_method": "robustscaler"}, "feature_col"),
+    # supplemental columns whose NAMES have upper-case letters, blanks, mixed case: they must come back verbatim
+    # (settings.train_features itself is a list[str] of a BaseSettings class and is lower-cased at construction, so
+    #  mixed-case names can only enter as supplemental columns)
+    "supplemental-names": ({"supplemental_time_series_columns": ["Humidity", " wind ", "Dew Point"],
+                            "scaling_method": "robustscaler"}, "names"),
+    # with a supplemental categorical column as well (predict raises for the original AND the reloaded model alike on
+    # such a model -- the documents and reloaded attributes are still compared)
+    "supplemental-categorical": ({"supplemental_time_series_columns": ["Humidity"], "supplemental_categorical_columns": ["Occ Flag"]}, "names"),
 }
 
 
@@ -179,6 +187,13 @@ def job_hourly(job):
     if solar == "feature_col":
         for fr in (hf, rf):
             fr["feature_col"] = np.sin(np.arange(len(fr)) / 17.0) + 0.1 * (fr.index.hour.values % 5)
+    if solar == "names":
+        for fr in (hf, rf):
+            n = np.arange(len(fr))
+            fr["Dew Point"] = fr["temperature"].values - 8 + 3 * np.sin(n / 41.0)
+            fr["Humidity"] = 50 + 20 * np.sin(n / 31.0)
+            fr[" wind "] = 5 + np.cos(n / 11.0)
+            fr["Occ Flag"] = (fr.index.hour.values >= 8).astype(float)
     if isinstance(st, str):
         from opendsm.eemeter.models.hourly import settings as hs
         st = hs.HourlySolarSettings(train_features=["temperature"])
